@@ -16,7 +16,7 @@ Definition t4 : list value := [o 0 0; o 5 50].
    (t4) that is one level shallower than the others *)
 Definition g_src : list value := [VArr [VArr t1; VArr t2]; VArr [VArr t3]; VArr []; VArr t4].
 Definition ex_doc : value := VObj [("g", VArr g_src)].
-Definition ex_ctx : qctx := {| c_data := [("g", VArr g_src)]; c_ctes := []; c_busy := [] |}.
+Definition ex_ctx : qctx := {| c_data := [("g", VArr g_src)]; c_ctes := []; c_busy := []; c_up := [] |}.
 
 (* SELECT a, b + 1 AS c FROM g WHERE a > 1 *)
 Definition ex_q : select stmt :=
